@@ -22,8 +22,8 @@ PLANS = {
         "floor": 2000,
     },
     "C02": {
-        "quick": [sess("file", "C02", 1200, 30), job("c02grid")],
-        "thorough": [sess("file", "C02", 6000, 420), job("c02grid", timeout=3600), sess("file", "C02", 2000, 120, profile="relwrap")],
+        "quick": [sess("file", "C02", 1200, 30), job("c02grid"), job("stdio", shards=4)],
+        "thorough": [sess("file", "C02", 6000, 420), job("c02grid", timeout=3600), sess("file", "C02", 2000, 120, profile="relwrap"), job("stdio")],
         "floor": 2000,
     },
     "C03": {
@@ -70,8 +70,8 @@ PLANS.update({
         "floor": 100000,
     },
     "C09": {
-        "quick": [job("c09")],
-        "thorough": [job("c09", timeout=3600), job("c09", variant="noalloc", timeout=3600)],
+        "quick": [job("c09"), job("stdio", shards=4)],
+        "thorough": [job("c09", timeout=3600), job("c09", variant="noalloc", timeout=3600), job("stdio")],
         "floor": 20000,
     },
     "C14": {
